@@ -688,3 +688,22 @@ mod tests {
         );
     }
 }
+
+#[cfg(nuts_rs_verif)]
+impl<M, R, A, T> MclmcChain<M, R, A, T>
+where
+    M: Math,
+    R: rand::Rng,
+    T: Transformation<M>,
+    A: AdaptStrategy<M, Hamiltonian = TransformedHamiltonian<M, T>>,
+{
+    /// Verification hook: read access to the adaptation strategy.
+    pub fn verif_strategy(&self) -> &A {
+        &self.adapt
+    }
+
+    /// Verification hook: read access to the Hamiltonian.
+    pub fn verif_hamiltonian(&self) -> &TransformedHamiltonian<M, T> {
+        &self.hamiltonian
+    }
+}
